@@ -404,6 +404,10 @@ func c03E2E(c *Ctx) error {
 		if got := src[r.Pos:r.End]; got != w.spanText {
 			res.Violate(hx.Violation{Signature: "payload:node-span", What: "reported node is not the At()/match span", Input: in, Impl: got, Spec: w.spanText})
 		}
+		if w.sugg == "" && r.HasSugg {
+			res.Violate(hx.Violation{Signature: "payload:suggestion-of-another-report", What: "a rule without Suggest() delivers a suggestion", Input: in,
+				Impl: fmt.Sprintf("%d:%d %q", r.From, r.To, r.Repl), Spec: "no suggestion"})
+		}
 		if w.sugg != "" {
 			if !r.HasSugg {
 				res.Violate(hx.Violation{Signature: "payload:suggestion-missing", What: "no suggestion", Input: in, Impl: "none", Spec: w.sugg})
